@@ -6,4 +6,6 @@ ids="$@"
 for id in $ids; do
   out=$(./check $id thorough 2>&1 | grep -v "^KNOWN-FINDING" | head -4 | cut -c1-200 | tr '\n' ' ')
   echo "$(date +%H:%M:%S) $id: $out"
+  # keep the evidence of the deep run next to the quick one (evidence/<id>.json is rewritten by every run)
+  mkdir -p evidence_thorough && cp evidence/$id.json evidence_thorough/$id.json 2>/dev/null
 done
